@@ -143,8 +143,17 @@ def _event_strategy():
         st.just([])))                                         # aborted activation, no bytes
     rawword = st.builds(lambda dev, pid, w: dict(dev=dev, bytes=[usb2.pid_byte(pid), w & 0xFF, w >> 8]),
                         rx.ADDR, st.sampled_from(TOKENISH), st.integers(0, 0xFFFF))
+    # several token-shaped fragments glued into ONE over-long packet (rx_active never falls): a head that is a
+    # valid / bad-CRC / bad-nibble / truncated token, 0-2 filler bytes, and a well-formed own token or SOF as tail
+    def _glue(head, fill, tail):
+        return dict(dev=head["dev"], bytes=head["bytes"] + fill + tail)
+    glued = st.one_of(bad_crc, bad_crc, bad_nibble, truncated, tok_own, tok_foreign, sof).flatmap(
+        lambda head: st.builds(_glue, st.just(head), st.lists(rx.BYTE, min_size=0, max_size=2),
+                               st.one_of(
+                                   st.builds(lambda pid, ep: rx.token_bytes(pid, head["dev"], ep), rx.TOKEN_PID, rx.ENDP),
+                                   st.builds(rx.sof_bytes, rx.FRAME))))
     classes = st.one_of(tok_own, tok_own, tok_own, tok_own, tok_own, tok_foreign, tok_foreign, sof, sof, bad_nibble, bad_crc, bad_crc,
-                        truncated, overlong, other, rawword)
+                        truncated, overlong, other, rawword, glued, glued)
     return rx.with_timing(classes)
 
 
@@ -153,7 +162,8 @@ class TokenHistories(Sub):
     budget = {"quick": 8000, "thorough": 300000}
     rule = ("histories of 1..30 packets drawn by construction from: valid own-address token (4 PIDs), foreign-address "
             "token, SOF, wrong check nibble, 1-5 flipped bits in the 16-bit token word, truncated to 1/2 bytes, "
-            "over-long, data/handshake/special-PID/garbage/aborted packets, random 16-bit word; per-packet device "
+            "over-long, token fragments glued into one packet (bad/valid head + 0-2 filler + well-formed own token/SOF), "
+            "data/handshake/special-PID/garbage/aborted packets, random 16-bit word; per-packet device "
             "address, byte gaps, lead/trail/idle timing; each packet's literal bytes are re-parsed by the reference "
             "(ref.usb2 + bit-serial CRC5) and the number and fields of new_token/new_frame strobes between consecutive "
             "packet ends must match; non-trivial = history has >=1 reported token AND >=1 rejected near-miss "
